@@ -9,8 +9,8 @@ from .. import base, drivers, explore, report, universe
 from . import common
 
 PROP = "C08"
-KQ = ("NL", "J", "CE")
-KT = KQ + ("NLI", "W0", "W3", "CO", "CD", "BL", "WT")
+KQ = ("NL", "CE", "J", "CEG")
+KT = KQ + ("NLI", "W0", "W3", "CO", "CD", "BL", "WT", "CEE")
 _SKIP = (parser.whitespace, parser.carriage_return, parser.blank_line)
 
 
@@ -96,11 +96,11 @@ def execute(item):
     if ex2.outcome != "ok":
         r.notes.append(("blocked_by", "C19 " + common.exc_key(ex2) if ex2.exception else "C08 recheck " + ex2.outcome))
     elif rep1 != rep2:
-        l1 = [x for x in (rep1 or "").split("\n") if " | " in x]
-        l2 = [x for x in (rep2 or "").split("\n") if " | " in x]
+        l1 = [x for x in (rep1 or "").split("\n") if " | " in x and not x.startswith("  Rule ")]
+        l2 = [x for x in (rep2 or "").split("\n") if " | " in x and not x.startswith("  Rule ")]
         d = [x for x in l1 if x not in l2][:3] + ["<<>>"] + [x for x in l2 if x not in l1][:3]
         rules = sorted({x.split("|")[0].strip() for x in d if "|" in x})
-        r.violations.append({"key": ("report_after_fix_differs_from_fresh_check", "+".join(rules[:3])), "detail": {"only_after_fix / only_fresh": d}, "item": common.strip_item(item)})
+        r.violations.append({"key": ("report_after_fix_differs_from_fresh_check", rules[0] if rules else "?"), "detail": {"only_after_fix / only_fresh": d}, "item": common.strip_item(item)})
     r.sample = {"id": item["id"], "effective_rules": ex.effective_rules[:6], "tokens_compared": len(ex.oFile.lAllObjects)}
     return r
 
